@@ -12,6 +12,34 @@ matches the proxy labels, else the last selector-less one).
 -/
 namespace IstioModel.C07
 
+/-- one field of a traffic policy: the value and the rule (namespace, name) it was written in.
+    The owner is bookkeeping of the model (the harness makes values identify their rule). -/
+structure PField where
+  val : Nat
+  owner : String × String
+deriving Repr, Inhabited, DecidableEq
+
+/-- a port-level entry of a traffic policy -/
+structure PortTP where
+  port : Nat
+  pool : Option PField     -- connectionPool.tcp.maxConnections
+  lb : Option PField       -- loadBalancer.simple
+deriving Repr, Inhabited
+
+/-- the part of `networking.TrafficPolicy` the model follows -/
+structure TP where
+  pool : Option PField := none
+  lb : Option PField := none
+  portLevel : List PortTP := []
+deriving Repr, Inhabited
+
+/-- a subset: its name, the rule that declared it, its own connection pool (if any) -/
+structure Subset where
+  name : String
+  owner : String × String
+  pool : Option PField := none
+deriving Repr, Inhabited
+
 structure DR where
   name : String
   ns : String
@@ -20,7 +48,9 @@ structure DR where
   exportTo : List String
   selector : Bool
   selLabels : List (String × String) := []   -- workloadSelector.matchLabels (when `selector`)
-  subsets : List String := []                -- subset names
+  subsets : List Subset := []                -- subsets (name, own policy)
+  tp : Option TP := none                     -- top-level trafficPolicy
+  backend : Bool := false                    -- synthesized from a Gateway API backend policy (internal parents annotation)
 deriving Repr, Inhabited
 
 /-- `ConsolidatedDestRule` -/
@@ -30,7 +60,9 @@ structure CDR where
   ns : String                    -- namespace of the first rule
   sel : Bool                     -- the first rule has a workloadSelector
   selLabels : List (String × String) := []
-  subsets : List String := []    -- subset names of the merged rule
+  subsets : List Subset := []    -- subsets of the merged rule
+  tp : Option TP := none         -- top-level trafficPolicy of the merged rule
+  backend : Bool := false        -- the first rule is a backend-policy rule (`isBackendPolicyDestinationRule(&copied)`)
 deriving Repr, Inhabited
 
 abbrev Pool := List (String × List CDR)   -- host -> consolidated rules (specific and wildcard hosts)
@@ -50,10 +82,40 @@ def labelsEq (a b : List (String × String)) : Bool :=
   a.all (fun kv => b.any fun kv' => kv'.1 == kv.1 && kv'.2 == kv.2) &&
   b.all (fun kv => a.any fun kv' => kv'.1 == kv.1 && kv'.2 == kv.2)
 
-/-- the rule `d` merged into the consolidated rule `mdr`: `from` grows, unknown subset names are added -/
+/-- `mergeBackendPolicyPortLevelSettings`: user entries win field by field, the backend fills the gaps,
+    ports only the backend sets are appended -/
+def mergeBackendPL (user backend : List PortTP) : List PortTP :=
+  if backend.isEmpty then user
+  else
+    let filled := user.map fun up =>
+      -- `byPort[...]` keeps the LAST user entry of a port; the harness never repeats a port
+      match backend.find? (·.port == up.port) with
+      | some bp => { up with pool := up.pool.orElse fun _ => bp.pool, lb := up.lb.orElse fun _ => bp.lb }
+      | none => up
+    filled ++ backend.filter fun bp => !user.any (·.port == bp.port)
+
+/-- `mergeBackendPolicyTrafficPolicy(user, backend)` -/
+def mergeBackendTP (user backend : Option TP) : Option TP :=
+  match user, backend with
+  | none, b => b
+  | u, none => u
+  | some u, some b =>
+    some { pool := u.pool.orElse fun _ => b.pool, lb := u.lb.orElse fun _ => b.lb,
+           portLevel := mergeBackendPL u.portLevel b.portLevel }
+
+/-- the top-level policy of the merged rule after `d` joined (`mergeDestinationRule`, the switch on
+    the origins of the two rules) -/
+def mergedTP (mdr : CDR) (d : DR) : Option TP :=
+  if mdr.backend == d.backend then (match mdr.tp with | none => d.tp | some t => some t)
+  else if d.backend then mergeBackendTP mdr.tp d.tp
+  else mergeBackendTP d.tp mdr.tp
+
+/-- the rule `d` merged into the consolidated rule `mdr`: `from` grows, unknown subset names are added
+    (with their own policy), the top-level policy follows `mergedTP` -/
 def mergeInto (mdr : CDR) (d : DR) : CDR :=
   { mdr with frm := mdr.frm ++ [(d.ns, d.name)],
-             subsets := mdr.subsets ++ d.subsets.filter fun x => !mdr.subsets.contains x }
+             subsets := mdr.subsets ++ d.subsets.filter (fun x => !mdr.subsets.any (·.name == x.name)),
+             tp := mergedTP mdr d }
 
 /-- the loop of `mergeDestinationRule` over the consolidated rules of one host;
     state = (appendSeparately, rules rewritten so far). -/
@@ -81,7 +143,7 @@ def mergeLoop (enhanced : Bool) (d : DR) (ex : List String) :
 
 def newCDR (d : DR) (ex : List String) : CDR :=
   { exportTo := ex, frm := [(d.ns, d.name)], ns := d.ns, sel := d.selector, selLabels := d.selLabels,
-    subsets := d.subsets }
+    subsets := d.subsets, tp := d.tp, backend := d.backend }
 
 /-- `PushContext.mergeDestinationRule` -/
 def mergeDR (enhanced : Bool) (p : Pool) (d : DR) (ex : List String) : Pool :=
@@ -199,5 +261,25 @@ def pickDR (cfgNs : String) (lbl : List (String × String)) : List CDR → Optio
     let catchAll' := if !c.sel then some c else catchAll
     if cfgNs == c.ns && c.sel && labelsSubset c.selLabels lbl then some c
     else pickDR cfgNs lbl t catchAll'
+
+/-! ### what a cluster gets from the picked rule (`util.GetPortLevelTrafficPolicy`, `MergeSubsetTrafficPolicy`) -/
+
+/-- `GetPortLevelTrafficPolicy`: a port-level entry replaces the destination-level policy wholesale -/
+def portPolicy (tp : Option TP) (port : Nat) : Option TP :=
+  match tp with
+  | none => none
+  | some t =>
+    match t.portLevel.find? (·.port == port) with
+    | some pl => some { pool := pl.pool, lb := pl.lb, portLevel := [] }
+    | none => some t
+
+/-- the connection pool of the default cluster of `port` -/
+def clusterPool (c : CDR) (port : Nat) : Option PField := (portPolicy c.tp port).bind (·.pool)
+
+/-- the connection pool of the subset cluster (`MergeSubsetTrafficPolicy`; subsets carry a pool only) -/
+def subsetClusterPool (c : CDR) (sub : Subset) (port : Nat) : Option PField :=
+  match sub.pool with
+  | some p => some p
+  | none => clusterPool c port
 
 end IstioModel.C07
